@@ -117,10 +117,10 @@ func TestSchedLedgerEnum(t *testing.T) {
 	}
 	bad := 0
 	// a bound in schedules per work unit keeps the tier inside its time; units cut off by it are counted
-	race.LeafCap = 3000
+	race.LeafCap = 1000
 	defer func() {
 		if race.Truncated > 0 {
-			rec.ClassN("sched_enum_work_units_cut_off_at_3000_schedules", race.Truncated)
+			rec.ClassN("sched_enum_work_units_cut_off_at_1000_schedules", race.Truncated)
 		}
 	}()
 	for ci, cs := range enumCases {
